@@ -1,5 +1,200 @@
 package dbworld
 
+import (
+	"bytes"
+	"encoding/json"
+	"fmt"
+	"os"
+	"path/filepath"
+	"sort"
+
+	"github.com/tailscale/setec/audit"
+	"github.com/tailscale/setec/db"
+	"github.com/tink-crypto/tink-go/v2/aead"
+	"github.com/tink-crypto/tink-go/v2/insecurecleartextkeyset"
+	"github.com/tink-crypto/tink-go/v2/keyset"
+
+	"verifsim/kernel"
+	"verifsim/model"
+)
+
+// goldenExpect is the recorded contents of a golden file.
+type goldenExpect struct {
+	Secrets map[string]struct {
+		Versions map[uint32][]byte
+		Active   uint32
+		Latest   uint32
+	}
+}
+
+// FixtureDir is where the committed golden files live.
+func FixtureDir() string {
+	if d := os.Getenv("VERIF_FIXTURES"); d != "" {
+		return d
+	}
+	return "/verif/fixtures"
+}
+
+func loadKeyset(path string) (*KEK, error) {
+	b, err := os.ReadFile(path)
+	if err != nil {
+		return nil, err
+	}
+	h, err := insecurecleartextkeyset.Read(keyset.NewJSONReader(bytes.NewReader(b)))
+	if err != nil {
+		return nil, err
+	}
+	a, err := aead.New(h)
+	if err != nil {
+		return nil, err
+	}
+	return &KEK{inner: a}, nil
+}
+
 // pickGolden installs a golden schema-v1 file as the initial database and
 // loads its expected contents into the model. Returns the fixture name.
-var pickGolden = func(e *Env) string { return "" }
+func pickGolden(e *Env) string {
+	files, _ := filepath.Glob(filepath.Join(FixtureDir(), "v1-*.db"))
+	sort.Strings(files)
+	if len(files) == 0 {
+		return ""
+	}
+	f := files[e.T.Choice(len(files))]
+	base := f[:len(f)-3]
+	kek, err := loadKeyset(base + ".key.json")
+	if err != nil {
+		e.S.Fail(e.Prof.Prop+".harness", "golden keyset: "+err.Error())
+		return ""
+	}
+	var exp goldenExpect
+	b, err := os.ReadFile(base + ".expect.json")
+	if err == nil {
+		err = json.Unmarshal(b, &exp)
+	}
+	if err != nil {
+		e.S.Fail(e.Prof.Prop+".harness", "golden expectation: "+err.Error())
+		return ""
+	}
+	data, _ := os.ReadFile(f)
+	if err := os.WriteFile(e.Path, data, 0o600); err != nil {
+		e.S.Fail(e.Prof.Prop+".harness", err.Error())
+		return ""
+	}
+	e.KEK = kek
+	e.Model = model.NewDB()
+	var names []string
+	for n := range exp.Secrets {
+		names = append(names, n)
+	}
+	sort.Strings(names)
+	for _, n := range names {
+		s := exp.Secrets[n]
+		e.Model.Load(n, s.Versions, s.Active, s.Latest)
+	}
+	// work on the golden file's own names too
+	e.Names = append(e.Names, names...)
+	if len(e.Names) > 6 {
+		e.Names = e.Names[len(e.Names)-6:]
+	}
+	e.S.Probe("golden")
+	return filepath.Base(f)
+}
+
+// GenGolden writes one golden fixture (database, cleartext keyset, expected
+// contents) into dir using the tree the harness was built from.
+func GenGolden(dir string, idx int) error {
+	tmpl := aead.AES256GCMKeyTemplate()
+	if idx%2 == 1 {
+		tmpl = aead.XChaCha20Poly1305KeyTemplate()
+	}
+	h, err := keyset.NewHandle(tmpl)
+	if err != nil {
+		return err
+	}
+	a, err := aead.New(h)
+	if err != nil {
+		return err
+	}
+	base := filepath.Join(dir, fmt.Sprintf("v1-%d", idx))
+	var kb bytes.Buffer
+	if err := insecurecleartextkeyset.Write(h, keyset.NewJSONWriter(&kb)); err != nil {
+		return err
+	}
+	os.Remove(base + ".db")
+	d, err := db.Open(base+".db", a, audit.New(discard{}))
+	if err != nil {
+		return err
+	}
+	m := model.NewDB()
+	t := kernel.NewTape(uint64(1000 + idx))
+	sup := db.Caller{Permissions: toACL([]model.Rule{{Actions: allActions, Patterns: []string{"*"}}})}
+	names := []string{"alpha", "dev/beta", "a\nb", "é/ü", "x y", "prod/gamma"}
+	vals := [][]byte{[]byte("hello"), {}, {0, 1, 2, 255}, []byte("line\nline\n"), {0xff, 0xfe}, bytes.Repeat([]byte("k"), 3000)}
+	do := func(op model.Op) {
+		exp := m.Peek(op)
+		var err error
+		switch op.Kind {
+		case model.OpPut:
+			_, err = d.Put(sup, op.Name, op.Value)
+		case model.OpActivate:
+			err = d.Activate(sup, op.Name, apiV(op.Version))
+		case model.OpDeleteVersion:
+			err = d.DeleteVersion(sup, op.Name, apiV(op.Version))
+		case model.OpDelete:
+			err = d.Delete(sup, op.Name)
+		}
+		if err == nil && exp.Classes.Has(model.OK) {
+			m.Apply(op)
+		}
+	}
+	for i := 0; i < 40+10*idx; i++ {
+		n := names[t.Choice(len(names))]
+		switch t.Weighted([]int{6, 3, 3, 1}) {
+		case 0:
+			v := append([]byte{}, vals[t.Choice(len(vals))]...)
+			if t.Bool(1, 2) {
+				v = append(v, byte('a'+i%26))
+			}
+			do(model.Op{Kind: model.OpPut, Name: n, Value: v})
+		case 1:
+			do(model.Op{Kind: model.OpActivate, Name: n, Version: uint32(t.Range(1, int(m.Latest(n))+1))})
+		case 2:
+			// prefer deleting the newest version: the next-version counter
+			// then exceeds every stored version
+			v := m.Latest(n)
+			if t.Bool(1, 2) {
+				v = uint32(t.Range(1, int(m.Latest(n))+1))
+			}
+			do(model.Op{Kind: model.OpDeleteVersion, Name: n, Version: v})
+		case 3:
+			do(model.Op{Kind: model.OpDelete, Name: n})
+		}
+	}
+	var exp goldenExpect
+	exp.Secrets = map[string]struct {
+		Versions map[uint32][]byte
+		Active   uint32
+		Latest   uint32
+	}{}
+	for _, n := range m.Names() {
+		vs := map[uint32][]byte{}
+		for _, v := range m.Versions(n) {
+			b, _ := m.VersionBytes(n, v)
+			vs[v] = b
+		}
+		exp.Secrets[n] = struct {
+			Versions map[uint32][]byte
+			Active   uint32
+			Latest   uint32
+		}{vs, m.Active(n), m.Latest(n)}
+	}
+	eb, _ := json.MarshalIndent(exp, "", " ")
+	if err := os.WriteFile(base+".key.json", kb.Bytes(), 0o644); err != nil {
+		return err
+	}
+	return os.WriteFile(base+".expect.json", eb, 0o644)
+}
+
+type discard struct{}
+
+func (discard) Write(p []byte) (int, error) { return len(p), nil }
